@@ -291,12 +291,15 @@ def failLookup (fs : List FailEntry) (a : Nat) : Nat :=
 
 def failErase (fs : List FailEntry) (a : Nat) : List FailEntry := fs.filter fun e => e.1 != a
 
+/-- `nextCleanupAt.IsZero() || !now.Before(nextCleanupAt)` -/
+def cleanupDue (w : World) : Bool :=
+  match w.nextCleanup with
+  | none => true
+  | some t => !decide (w.now < t)
+
 /-- `maybeCleanupLocked`. -/
 def cleanupFailures (w : World) : World :=
-  let due := match w.nextCleanup with
-    | none => true
-    | some t => !decide (w.now < t)
-  if due then
+  if cleanupDue w then
     { w with failures := w.failures.filter (fun e => !decide (w.now - e.2.2 ≥ failureTTL)),
              nextCleanup := some (w.now + cleanupInterval) }
   else w
@@ -415,6 +418,12 @@ def markAliveFallback (w : World) (n : Nat) (t : Typ) (o : Oracle) : World × Li
 
 def findSet (sets : List ASet) (g i : Nat) : Option ASet := sets.find? fun s => s.gid == g && s.idx == i
 
+/-- the floor's candidate: the captured fallback, else `g.Dialers[0]` -/
+def floorCandidate (fb : Nat → Option Nat) (s : ASet) (i : Nat) : Option Nat :=
+  match fb i with
+  | some c => some c
+  | none => s.members.head?
+
 /-- `EnsureReloadSelectionFloor`, one network type. -/
 def floorOne (w : World) (g : Nat) (fb : Nat → Option Nat) (o : Oracle) (t : Typ) : World × List Out :=
   match findSet w.sets g t.idx with
@@ -422,7 +431,7 @@ def floorOne (w : World) (g : Nat) (fb : Nat → Option Nat) (o : Oracle) (t : T
   | some s =>
     if s.entries.length > 0 then (w, [])
     else
-      match (match fb t.idx with | some c => some c | none => s.members.head?) with
+      match floorCandidate fb s t.idx with
       | none => (w, [])
       | some c => markAliveFallback w c t o
 
